@@ -10,6 +10,7 @@ mod gen;
 mod hostile;
 mod merge;
 mod parse;
+mod programs;
 mod proj;
 mod render;
 mod rewrite;
@@ -36,6 +37,7 @@ fn main() {
         "docs-trace" => parse::docs_trace(&args),
         "cases-docs" => parse::cases_docs(&args),
         "cli-replay" => cli::replay(&args),
+        "programs-gen" => programs::gen(&args),
         "hostile" => hostile::run(&args),
         "hostile-replay" => hostile::replay(&args),
         "api-replay" => api::replay(&args),
